@@ -5,7 +5,7 @@ Open Scope string_scope.
 
 (* every command takes  [capacity; slots_per_cluster; region; upper table; args...]
    capacity: () = growable, (n) = fixed root of n slots; region: the bytes of all records;
-   upper table: list of (code point, its upper case) for the characters that change *)
+   upper table: packed (code point, its upper case) for the characters that change, sorted *)
 Fixpoint chunks (fuel : nat) (b : list N) : list (list N) :=
   match fuel with
   | O => []
@@ -16,12 +16,36 @@ Definition get_dir (a : val) : dir :=
   {| d_recs := chunks (List.length b) b;
      d_cap := match getOpt (arg 0 a) with Some n => Some (getN n) | None => None end |}.
 Definition get_spc (a : val) : N := getN (arg 1 a).
-Fixpoint up1 (tab : list val) (c : N) : list N :=
+(* the table is sorted by code point: the search stops at the first larger key *)
+Fixpoint up1 (tab : list (N * list N)) (c : N) : list N :=
   match tab with
   | [] => [c]
-  | e :: r => if N.eqb (getN (arg 0 e)) c then getS (arg 1 e) else up1 r c
+  | (k, v) :: r => if N.eqb k c then v else if N.ltb c k then [c] else up1 r c
   end.
-Definition get_upper (a : val) : list N -> list N := flat_map (up1 (getL (arg 3 a))).
+(* the table travels as one byte string: per entry the code point (3 bytes, big endian), the
+   number k of code points of its upper case (1 byte), then those (3 bytes each) *)
+Fixpoint parse_chars (k : nat) (b : list N) : list N :=
+  match k with
+  | O => []
+  | S k' => match b with
+            | c2 :: c1 :: c0 :: r => (c2 * 65536 + c1 * 256 + c0) :: parse_chars k' r
+            | _ => []
+            end
+  end.
+Fixpoint parse_tab (fuel : nat) (b : list N) : list (N * list N) :=
+  match fuel with
+  | O => []
+  | S f => match b with
+           | c2 :: c1 :: c0 :: n :: r =>
+             let k := N.to_nat n in
+             (c2 * 65536 + c1 * 256 + c0, parse_chars k r) :: parse_tab f (skipn (3 * k) r)
+           | _ => []
+           end
+  end.
+Definition get_upper (a : val) : list N -> list N :=
+  let b := getS (arg 3 a) in
+  let tab := parse_tab (List.length b) b in
+  flat_map (up1 tab).
 
 Definition VDir (d : dir) : val := VS (List.concat (d_recs d)).
 Definition VOut (x : dir * option exn) : val :=
